@@ -163,7 +163,7 @@ class BodyMixin:
                 return None
             try:
                 return json_mod.loads(b)
-            except ValueError:  # invalid JSON or not UTF-8
+            except (ValueError, RecursionError):  # invalid JSON, not UTF-8 or nested beyond what the parser can follow
                 self._raise(BodyParsingError('Invalid JSON'), RequestError)
         return None
 
